@@ -108,6 +108,8 @@ pub enum Op {
     Block { blk: Blk, parent: Blk },
     Standstill,
     Wait(u64),
+    /// a waiter is registered and its receiving end dropped at once (the caller gave up waiting)
+    WaitAbandoned(u64),
 }
 
 impl Op {
@@ -121,6 +123,7 @@ impl Op {
             ),
             Op::Standstill => "recover_from_standstill".into(),
             Op::Wait(s) => format!("wait_for_parent_ready(s{s})"),
+            Op::WaitAbandoned(s) => format!("wait_for_parent_ready(s{s}), receiver dropped"),
         }
     }
 }
